@@ -46,11 +46,14 @@ TBGraph == Is("BasinGraph") /\ BasinGraphObs(Log[l].g, Log[l], l) /\ Adv
 TSnapM == Is("SnapMutate") /\ SnapMutate(Log[l].g, Log[l].name, Log[l].threw, l) /\ Adv
 \* a call that never returned (hang, crash): no specification action allows it; in diagnosis
 \* mode it is reported and skipped so that the rest of the trace is still examined
+\* look-ups through the grid API, on this grid or on another grid object alive at the same time: grids are
+\* values, so these are stuttering steps of the specification
+TTouch == Is("Touch") /\ UNCHANGED fvars /\ Adv
 TNoReturn == Is("NoReturn") /\ Diag /\ PrintT(<<"FAILED", "NoReturn", "line", l>>) /\ UNCHANGED fvars /\ Adv
 
 TraceInit == FInit /\ l = 1
 TraceNext == TReset \/ TGrid \/ TNew \/ TDrop \/ TMask \/ TMaskBad \/ TBL \/ TParam \/ TUpdate \/ TAcc
-             \/ TBasins \/ TSnapG \/ TSnapE \/ TSnapM \/ TKernel \/ TSpl \/ TBGraph \/ TNoReturn
+             \/ TBasins \/ TTouch \/ TSnapG \/ TSnapE \/ TSnapM \/ TKernel \/ TSpl \/ TBGraph \/ TNoReturn
 TraceSpec == TraceInit /\ [][TraceNext]_tvars
 
 TraceAccepted ==
